@@ -97,6 +97,15 @@ func candidates(cur *Case, dir string) []*Case {
 			c.Chain, c.T2, c.Relay, c.Wait, c.Every2 = false, Tun{}, "", false, 0
 			return true
 		})
+		if cur.Every2 != 0 {
+			// the second tunnel alone, keeping its transport grid
+			add(func(c *Case) bool {
+				c.T1 = c.T2
+				c.C2S.Every, c.S2C.Every = c.Every2, c.Every2
+				c.Chain, c.T2, c.Relay, c.Wait, c.Every2 = false, Tun{}, "", false, 0
+				return true
+			})
+		}
 		if cur.Wait {
 			add(func(c *Case) bool { c.Wait = false; return true })
 		}
@@ -111,8 +120,31 @@ func candidates(cur *Case, dir string) []*Case {
 		}
 		simplifyTun(func(c *Case) *Tun { return &c.T2 })
 	}
-	for _, get := range []func(c *Case) *Dir{func(c *Case) *Dir { return &c.C2S }, func(c *Case) *Dir { return &c.S2C }} {
+	var layout map[string][]namedOff
+	if len(cur.C2S.Cuts)+len(cur.S2C.Cuts) > 0 || cur.C2S.Every != 0 || cur.S2C.Every != 0 {
+		layout = layoutOf(cur)
+	}
+	for gi, get := range []func(c *Case) *Dir{func(c *Case) *Dir { return &c.C2S }, func(c *Case) *Dir { return &c.S2C }} {
 		d := get(cur)
+		offs := layout[[]string{"c2s", "s2c"}[gi]]
+		if d.Every != 0 {
+			// a grid becomes the earliest single structural cut that still fails
+			for _, o := range offs {
+				add(func(c *Case) bool { x := get(c); x.Every, x.Cuts = 0, []int64{o.off}; return true })
+			}
+			for _, k := range []int{4093, 7, 2} {
+				if k > d.Every {
+					add(func(c *Case) bool { get(c).Every = k; return true })
+				}
+			}
+		}
+		if len(d.Cuts) == 1 {
+			for _, o := range offs {
+				if o.off < d.Cuts[0] {
+					add(func(c *Case) bool { get(c).Cuts = []int64{o.off}; return true })
+				}
+			}
+		}
 		if len(d.Cuts) > 0 {
 			add(func(c *Case) bool { get(c).Cuts = nil; return true })
 		}
@@ -209,6 +241,69 @@ func candidates(cur *Case, dir string) []*Case {
 	return out
 }
 
+// layoutOf records the wire structure of the case's first tunnel from an
+// unfragmented run.
+func layoutOf(c *Case) map[string][]namedOff {
+	rec, hung := safeRun(uncut(c))
+	if hung || rec == nil {
+		return nil
+	}
+	return map[string][]namedOff{
+		"c2s": wireOffsets(c.T1, "c2s", rec.Logs["t1.c2s"]),
+		"s2c": wireOffsets(c.T1, "s2c", rec.Logs["t1.s2c"]),
+	}
+}
+
+// wireShapeChanged says whether cand differs from cur in anything that moves
+// structural offsets (everything except the cuts themselves and the readers).
+func wireShapeChanged(cur, cand *Case) bool {
+	a, b := cloneCase(cur), cloneCase(cand)
+	for _, c := range []*Case{a, b} {
+		c.C2S.Cuts, c.S2C.Cuts = nil, nil
+		c.C2S.RM, c.S2C.RM, c.C2S.Bufs, c.S2C.Bufs = "", "", nil, nil
+	}
+	return a.key() != b.key()
+}
+
+// remapCuts rewrites dst (the candidate's cuts, same length and order as the
+// current case's cuts src where they were not edited) so that each cut keeps
+// its structural name.
+func remapCuts(src, dst []int64, from, to []namedOff) {
+	if len(src) != len(dst) {
+		return
+	}
+	for i, o := range src {
+		if dst[i] != o {
+			continue // the candidate moved this cut on purpose
+		}
+		name := ""
+		for _, x := range from {
+			if x.off == o {
+				name = x.name
+				break
+			}
+		}
+		if name == "" {
+			continue
+		}
+		for _, x := range to {
+			if x.name == name {
+				dst[i] = x.off
+				break
+			}
+		}
+	}
+}
+
+func cutName(offs []namedOff, o int64) string {
+	for _, x := range offs {
+		if x.off == o {
+			return x.name
+		}
+	}
+	return fmt.Sprintf("offset%d", o)
+}
+
 // minimize reduces c; it returns the reduced case and its (sorted) failures.
 func minimize(c *Case, f fail) (*Case, []fail, int) {
 	class, dir := failClass(f.Clause), f.Dir
@@ -223,9 +318,22 @@ func minimize(c *Case, f fail) (*Case, []fail, int) {
 		return c, []fail{f}, runs
 	}
 	curFails := res.Fails
-	for runs < 600 {
+	for runs < 2000 {
 		progressed := false
+		hasCuts := len(cur.C2S.Cuts)+len(cur.S2C.Cuts) > 0
+		var curLayout map[string][]namedOff
+		if hasCuts {
+			curLayout = layoutOf(cur)
+			runs++
+		}
 		for _, cand := range candidates(cur, dir) {
+			if hasCuts && wireShapeChanged(cur, cand) {
+				// keep every cut at the same structural place of the changed wire stream
+				candLayout := layoutOf(cand)
+				runs++
+				remapCuts(cur.C2S.Cuts, cand.C2S.Cuts, curLayout["c2s"], candLayout["c2s"])
+				remapCuts(cur.S2C.Cuts, cand.S2C.Cuts, curLayout["s2c"], candLayout["s2c"])
+			}
 			r, hung := safeRun(cand)
 			runs++
 			if hung {
@@ -254,6 +362,7 @@ func canonicalSignature(c *Case, fs []fail, class, dir string) string {
 		}
 	}
 	var parts []string
+	var layout map[string][]namedOff
 	tun := func(name string, t Tun) {
 		if t.Key != 16 {
 			parts = append(parts, fmt.Sprintf("%s.key=%d", name, t.Key))
@@ -314,7 +423,14 @@ func canonicalSignature(c *Case, fs []fail, class, dir string) string {
 			parts = append(parts, fmt.Sprintf("%s.reader=%s%v", x.n, x.d.RM, x.d.Bufs))
 		}
 		if len(x.d.Cuts) > 0 {
-			parts = append(parts, fmt.Sprintf("%s.cuts=%v", x.n, x.d.Cuts))
+			if layout == nil {
+				layout = layoutOf(c)
+			}
+			var names []string
+			for _, o := range x.d.Cuts {
+				names = append(names, cutName(layout[x.n], o))
+			}
+			parts = append(parts, fmt.Sprintf("%s.cut-at=%s", x.n, strings.Join(names, "&")))
 		}
 		if x.d.Every != 0 {
 			parts = append(parts, fmt.Sprintf("%s.grid=%d", x.n, x.d.Every))
@@ -322,6 +438,9 @@ func canonicalSignature(c *Case, fs []fail, class, dir string) string {
 	}
 	if c.Cap != 1<<20 {
 		parts = append(parts, fmt.Sprintf("transportbuf=%d", c.Cap))
+	}
+	if len(parts) == 0 {
+		parts = []string{"default-case"}
 	}
 	s := strings.Join(parts, " ")
 	s = strings.ReplaceAll(s, "[", "(")
